@@ -101,6 +101,9 @@ var (
 	verifC02ByNum    = map[uint64]*verifC02Archive{}
 )
 
+// verifC02CacheLookup is installed by the CAR-mode obligations (c02_car.go): the raw-object cache.
+var verifC02CacheLookup func(a *verifC02Archive, c cid.Cid) ([]byte, bool)
+
 func verifC02Reset() {
 	verifC02Archives = map[*Epoch]*verifC02Archive{}
 	verifC02ByNum = map[uint64]*verifC02Archive{}
@@ -170,8 +173,14 @@ const verifC02TxHead = 65 // compact-u16(1) + first signature
 // payloadWithHead archives head ++ n symbolic bytes; the head stays in the first frame and the n
 // bytes are cut evenly over the frames of the layout.
 func (a *verifC02Archive) payloadWithHead(head []byte, name string, n int, layout int, withHash bool) verifC02Payload {
-	h := len(head)
-	p := verifC02Payload{want: append(append([]byte{}, head...), verifBytes(name, n)...)}
+	return a.payloadBytes(append(append([]byte{}, head...), verifBytes(name, n)...), len(head), layout, withHash)
+}
+
+// payloadBytes archives the given bytes; the first h bytes stay in the first frame and the rest is
+// cut evenly over the frames of the layout.
+func (a *verifC02Archive) payloadBytes(want []byte, h int, layout int, withHash bool) verifC02Payload {
+	n := len(want) - h
+	p := verifC02Payload{want: want}
 	p.first = ipldbindcode.DataFrame{Kind: verifC02KindDataFrame}
 	cut := func(i, k int) []byte {
 		lo, hi := h+n*i/k, h+n*(i+1)/k
@@ -292,6 +301,12 @@ func (ser *Epoch) FindCidFromSignature(ctx context.Context, sig solana.Signature
 
 func (s *Epoch) GetNodeByCid(ctx context.Context, wantedCid cid.Cid) ([]byte, error) {
 	a := verifC02Archives[s]
+	if verifC02CacheLookup != nil {
+		// CAR mode (C02.*Prefetch): as the real GetNodeByCid, an object found in the cache is served from it
+		if data, ok := verifC02CacheLookup(a, wantedCid); ok {
+			return data, nil
+		}
+	}
 	if a.failing != nil && a.failing.Equals(wantedCid) {
 		return nil, errors.New("verif model: i/o error while reading the node")
 	}
